@@ -43,6 +43,8 @@ type Profile struct {
 	EDSFaults   float64
 	// Burst: extra weight of back-to-back replica-set reconcile requests at +0 / +0.4s / freq-1s
 	Burst       float64
+	// Nested: N-mode yield probability per API call (0 = atomic reconciles, schedule S)
+	Nested      float64
 }
 
 // Sim is the scenario engine: one case = one generated history.
@@ -255,6 +257,13 @@ func (e *Sim) Run(ctx *core.Ctx, idx int) {
 	w.Coop = false
 	edits := map[string]int{}
 	nextTpl := map[string]int{}
+	if e.P.Nested > 0 {
+		w.Mode = "N"
+		w.EnableNested(e.P.Nested, func(outer string) {
+			ref := refs[r.Intn(len(refs))]
+			e.nestedAction(w, r, outer, ref.ns, ref.name, sh, edits, nextTpl)
+		})
+	}
 	// hostile phase
 	for step := 0; step < e.P.Steps; step++ {
 		ref := refs[r.Intn(len(refs))]
@@ -304,6 +313,16 @@ func (e *Sim) observeState(w *World, ns, name string) {
 }
 
 func (e *Sim) action(w *World, r *rand.Rand, ns, name string, sh shape, edits map[string]int, nextTpl map[string]int) {
+	e.actionFrom(w, r, ns, name, sh, edits, nextTpl, 0)
+}
+
+// envAction picks among the non-reconcile actions only.
+func (e *Sim) envAction(w *World, r *rand.Rand, ns, name string, sh shape, edits map[string]int, nextTpl map[string]int) {
+	e.actionFrom(w, r, ns, name, sh, edits, nextTpl, 4)
+}
+
+// actionFrom draws from the action table starting at index `from` (the first four entries are reconciles).
+func (e *Sim) actionFrom(w *World, r *rand.Rand, ns, name string, sh shape, edits map[string]int, nextTpl map[string]int, from int) {
 	p := e.P
 	type act struct {
 		w float64
@@ -471,14 +490,20 @@ func (e *Sim) action(w *World, r *rand.Rand, ns, name string, sh shape, edits ma
 			dup := src.DeepCopy()
 			dup.ObjectMeta = metav1.ObjectMeta{Namespace: src.Namespace, GenerateName: "dup-", Labels: src.Labels, Annotations: src.Annotations, OwnerReferences: src.OwnerReferences}
 			dup.Status = corev1.PodStatus{}
-			if r.Intn(3) == 0 && src.Spec.Affinity != nil {
-				dup.Spec.NodeName = ""
+			if r.Intn(3) == 0 {
+				// an unscheduled duplicate is only meaningful when it is still pinned to the node by affinity
+				probe := dup.DeepCopy()
+				probe.Spec.NodeName = ""
+				if kit.NodeOfPod(probe) != "" {
+					dup.Spec.NodeName = ""
+				}
 			}
 			if err := w.User.Create(nil, dup); err == nil {
 				w.tracef("user: hand-made duplicate %s of %s on %s", dup.Name, src.Name, kit.NodeOfPod(src))
 			}
 		}},
 	}
+	acts = acts[from:]
 	total := 0.0
 	for _, a := range acts {
 		total += a.w
@@ -493,3 +518,41 @@ func (e *Sim) action(w *World, r *rand.Rand, ns, name string, sh shape, edits ma
 	}
 }
 
+
+// nestedAction: what another actor does while a reconcile of `outer` is suspended at an API call.
+func (e *Sim) nestedAction(w *World, r *rand.Rand, outer, ns, name string, sh shape, edits map[string]int, nextTpl map[string]int) {
+	switch k := r.Intn(10); {
+	case k < 3:
+		w.KubeletStep()
+	case k < 4:
+		w.Advance([]time.Duration{400 * time.Millisecond, time.Second, 11 * time.Second, 61 * time.Second}[r.Intn(4)])
+	case k < 7:
+		// one complete reconcile of a different controller
+		switch outer {
+		case "ers":
+			if r.Intn(3) == 0 {
+				w.Reconcile("podtemplate", ns, name)
+			} else {
+				w.Reconcile("eds", ns, name)
+			}
+		default:
+			var own []string
+			for _, rs := range kit.RSs(w.S) {
+				if rs.Namespace == ns {
+					own = append(own, rs.Name)
+				}
+			}
+			if len(own) > 0 {
+				w.Reconcile("ers", ns, own[r.Intn(len(own))])
+			}
+		}
+	default:
+		// a user / environment action from the ordinary action table, excluding reconciles
+		saved := e.P
+		p2 := e.P
+		p2.Burst = 0
+		e.P = p2
+		e.envAction(w, r, ns, name, sh, edits, nextTpl)
+		e.P = saved
+	}
+}
